@@ -333,9 +333,9 @@ def origins(f, d, depth=0, seen=None):
             for s in src:
                 s2 = strip(s)
                 if isinstance(s2, dict) and s2.get('k') == 'call' and \
-                        basename(s2.get('name') or '') in ('begin', 'end', 'rbegin', 'find',
+                        lastname(s2.get('name')) in ('begin', 'end', 'rbegin', 'find',
                                                            'cbegin', 'lower_bound'):
-                    out.append({'k': 'elem', 'of': s2.get('recv'), 'via': basename(s2['name'])})
+                    out.append({'k': 'elem', 'of': s2.get('recv'), 'via': lastname(s2['name'])})
                 elif isinstance(s2, dict) and s2.get('k') == 'elem':
                     out.append(s2)
                 else:
@@ -352,8 +352,8 @@ def origins(f, d, depth=0, seen=None):
         for s in src:
             s2 = strip(s)
             if isinstance(s2, dict) and s2.get('k') == 'call' and \
-                    basename(s2.get('name') or '') in ('begin', 'end', 'find'):
-                out.append({'k': 'elem', 'of': s2.get('recv'), 'via': basename(s2['name'])})
+                    lastname(s2.get('name')) in ('begin', 'end', 'find'):
+                out.append({'k': 'elem', 'of': s2.get('recv'), 'via': lastname(s2['name'])})
             else:
                 out.append({'k': 'un', 'op': '*', 'e': s2})
         return out
@@ -365,8 +365,11 @@ def origins(f, d, depth=0, seen=None):
 # ---- loops ----------------------------------------------------------------------------------------
 
 def _plain_field(d, field=None):
-    """descriptor is exactly a (possibly nested-base) member `field`, no arithmetic."""
+    """descriptor is exactly a (possibly nested-base) member `field`, no arithmetic.  `field`
+    may also be a predicate over the container descriptor (e.g. a parameter by name)."""
     d = strip(d)
+    if callable(field):
+        return isinstance(d, dict) and bool(field(d))
     return isinstance(d, dict) and d.get('k') == 'mem' and (field is None or d['n'] == field)
 
 
@@ -380,6 +383,12 @@ def _resolve_local(f, d, depth=0):
         d = strip(init)
         depth += 1
     return d
+
+
+def lastname(name):
+    """Unqualified function name: `EdgeInputsRange::end` -> `end`, std names via basename."""
+    n = basename(name or '')
+    return n.rsplit('::', 1)[-1]
 
 
 def loops_over(f, field):
@@ -420,21 +429,21 @@ def loops_over(f, field):
                 'line': t.get('line'), 'style': None, 'full': False, 'bound': dstr(rr)}
         # iterator styles
         if isinstance(rr, dict) and rr.get('k') == 'call' and \
-                basename(rr.get('name') or '') in ('end', 'cend'):
+                lastname(rr.get('name')) in ('end', 'cend'):
             cont = _resolve_local(f, rr.get('recv'))
-            if isinstance(cont, dict) and cont.get('k') == 'mem' and cont['n'] == field:
+            if _plain_field(cont, field):
                 info['style'] = 'range' if t['kind'] == 'range' else 'iterator'
                 ok_init = isinstance(init, dict) and init.get('k') == 'call' and \
-                    basename(init.get('name') or '') in ('begin', 'cbegin') and \
+                    lastname(init.get('name')) in ('begin', 'cbegin') and \
                     _plain_field(_resolve_local(f, init.get('recv')), field)
                 info['full'] = bool(ok_init)
                 out.append(info)
                 continue
         # iterator with arithmetic on the bound: `end() - k`
-        if any(x.get('k') == 'call' and basename(x.get('name') or '') in ('end', 'begin') and
+        if any(x.get('k') == 'call' and lastname(x.get('name')) in ('end', 'begin') and
                _plain_field(_resolve_local(f, x.get('recv')), field) for x in walk(rr)) or \
                 (init is not None and any(
-                    x.get('k') == 'call' and basename(x.get('name') or '') in ('end', 'begin') and
+                    x.get('k') == 'call' and lastname(x.get('name')) in ('end', 'begin') and
                     _plain_field(_resolve_local(f, x.get('recv')), field) for x in walk(init))):
             info['style'] = 'iterator-offset'
             info['full'] = False
@@ -449,7 +458,7 @@ def loops_over(f, field):
         if uses:
             info['style'] = 'index'
             full = isinstance(rr, dict) and rr.get('k') == 'call' and \
-                basename(rr.get('name') or '') == 'size' and _plain_field(rr.get('recv'), field) \
+                lastname(rr.get('name')) == 'size' and _plain_field(rr.get('recv'), field) \
                 and op in ('<', '!=') and init is not None and const_value(init) == 0
             info['full'] = bool(full)
             out.append(info)
@@ -589,7 +598,7 @@ def canon_before_intern(ctx, rid, f, exempt=None):
                             (x is not d and x in defs))
             if r is not None:
                 bad = r
-        key = (f.name, e.get('name'))
+        key = (f.name, e.get('name'), v)
         if bad is not None and exempt is not None and key in exempt:
             ctx.inst(rid, f.where(e), '%s in %s not canonicalised here (exempt: %s)' % (
                 e.get('name'), f.name, exempt[key]))
